@@ -464,7 +464,7 @@ def leaf_nodes(elements=None, hot=True):
 def _structures(sub_seq, sub_node):
     """Structure nodes over the given sub-strategies."""
     branch = sub_seq
-    PARAM = st.one_of(st.integers(0, 3).map(str), st.text("abnxy_", min_size=1, max_size=2), st.text("abn_²₁½É", min_size=1, max_size=2))
+    PARAM = st.one_of(st.integers(0, 3).map(str), st.sampled_from(["00", "01", "007", "10", "2a", "a1"]), st.text("abnxy_", min_size=1, max_size=2), st.text("abn_²₁½É", min_size=1, max_size=2))
     return st.one_of(
         st.lists(branch, min_size=1, max_size=5).map(lambda bs: ["if", bs]),
         st.tuples(st.one_of(st.none(), NAME), branch).map(lambda t: ["for", t[0], t[1]]),
